@@ -11,6 +11,26 @@ TB = ("Lean 4.33.0 kernel (+ leanchecker in the thorough tier); axioms propext/C
       "correspondence drivers (T-corr) are unverified programs. ")
 
 CHECKS = {
+    "C01": dict(
+        text=("Proof (Lean 4) about the L2 reference evaluator (lean/DDP/Spec: total functions evalExpr/execStmt/execLoop/... by "
+              "structural recursion on fuel, values Zahl=Int wrapped to 64 bit, Kommazahl=IEEE double, Byte, Buchstabe, Text=code points, "
+              "lists, Kombinationen, Variable, a store with locations and paths for Referenz parameters): 49 theorems for the rules the "
+              "property names — 64-bit wrap-around (range, identity, congruence), Byte arithmetic, mixed Zahl/Byte/Kommazahl operands, all "
+              "conversions, short-circuit `und`/`oder`/`falls` (the skipped operand is irrelevant for every expression b), left-to-right "
+              "operands, 1-based indexing and out-of-range = Laufzeitfehler, slices = drop/take of clamped bounds incl. crossed bounds, "
+              "equality per type (lists element-wise, length mismatch, Variable by tag and payload), loop unfolding (end, round, Verlasse, "
+              "Fahre fort, for-each). Tie (T-corr through the real compiler): the full operator x admissible-operand-type matrix "
+              "(~900 cells x boundary operands) and type-directed random programs (all statement forms, functions with value/Referenz "
+              "parameters, Kombinationen, Variable), printed fully parenthesised AND with minimal parentheses derived from the ladder of "
+              "expressions.go, compiled by the working tree's kddp, run, and compared with the evaluator on stdout, exit status and "
+              "Laufzeitfehler; disagreements are minimised by statement-level delta debugging and replayable one by one. Eight defects "
+              "found this way were repaired (fix: commits)."),
+        note=TB + "The code generator, LLVM and libc are reached by correspondence only (partial): instruction selection, "
+             "optimisation passes and printf are not modelled. Programs that hit LLVM-undefined operations are not judged. "
+             "No theorem yet relates the parser ladder to the printer (parse_pp) or states type soundness / fuel monotonicity.",
+        technique="Lean 4 proof about a total reference evaluator + differential correspondence of generated programs through the real compiler",
+        ref="§5 C01",
+    ),
     "C02": dict(
         text=("Proof (Lean 4), for ALL type terms (aliases, definitions, lists, Kombinationen of any nesting, not a finite table): whenever "
               "the model of the type checker's operator rules (DDP.Checker.admits, transcribed from VisitUnary/Binary/TernaryExpr) admits "
